@@ -110,9 +110,17 @@ def make_sheet(rnd, premium=False, default_bg=(255, 255, 255), rich=False, n_rul
     vcount = [0]
 
     def new_var(value):
-        name = f"--{tag}c{vcount[0]}"
+        # custom property names are case-sensitive: some names use upper-case letters, and some have a twin that differs only
+        # in letter case and holds another value
+        style = rnd.randrange(5)
+        base = f"{tag}c{vcount[0]}"
+        name = "--" + (base if style < 2 else base.replace("c", "Color", 1) if style < 4 else base.upper())
         vcount[0] += 1
         var_defs.append((name, value))
+        if style in (3, 4) and allowed("var-case-twin"):
+            twin = "--" + (base.replace("c", "Color", 1).lower() if style == 3 else base)
+            if twin != name:
+                var_defs.insert(rnd.randrange(len(var_defs) + 1), (twin, rnd.choice(["#111111", "#f5f5f5", "#7a7a7a", "rgb(200, 40, 40)"])))
         return name
 
     i = 0
